@@ -782,6 +782,214 @@ def check_C09(tier, seed):
     return threads_check("C09", tier, seed)
 
 
+C06_RULES = ("write-outside-commit", "header-write-outside-commit", "file-changed-without-a-commit",
+             "shared-freelist-vs-header", "alloc-rule", "alloc-of-live-page", "live-page-overwritten", "stale-header-read",
+             "free-outside-writer", "alloc-outside-writer", "publish-outside-writer", "double-free", "free-of-page-not-owned",
+             "persisted-freelist", "reachable-vs-owned", "header-fields", "high-water-mark")
+
+
+def c06_scope(sig):
+    if sig.get("kind") == "l1":
+        return sig["rule"] in C06_RULES
+    if sig.get("kind") == "kv":
+        return sig.get("what") != "check"
+    return True
+
+
+def check_C06(tier, seed):
+    """rollbacks, failing calls, read-only transactions, re-opens leave no trace"""
+    v = Verdict("C06")
+    mckv = mc_kv(tier)
+    mc = mc_page(tier, parts=("readers",))
+    stats = {}
+    gens = []
+    if tier == "quick":
+        n, act, fill = spread(2, 2)
+        gens.append(("rb2", gen_cfg(n, act, fill, pre=("kv", "bucket", "nest"), ends=("drop", "droprerun"),
+                                    acts=("keep", "put", "del", "delb", "delsubdelb", "mkb"), tails=("none", "delpath")),
+                     ["two"]))
+        n, act, fill = spread(3, 14)
+        gens.append(("rb3f14", gen_cfg(n, act, fill, ends=("drop", "droprerun")), ["three"]))
+        runs = [dict(profile=p, seed=seed * 100 + i, n=5, len=70, nkeys=12, nvals=4,
+                     args=["--readback", "0", "--hashes", "1", "--p-rollback", "8", "--max-readers", "2",
+                           "--presized-pages", "1024"] + extra)
+                for i, (p, extra) in enumerate([("two", []), ("overflow", ["--presized", "0"]), ("three", [])])]
+    else:
+        n, act, fill = spread(4, 2)
+        gens.append(("rb4", gen_cfg(n, act, fill, pre=("kv", "bucket", "nest"), ends=("drop", "droprerun"),
+                                    acts=("keep", "put", "del", "delb", "delsubdelb", "mkb"), tails=("none", "delpath")),
+                     ["two", "overflow"]))
+        n, act, fill = spread(5, 16)
+        gens.append(("rb5f16", gen_cfg(n, act, fill, ends=("drop", "droprerun")), ["three", "longkey"]))
+        runs = [dict(profile=p, seed=seed * 1000 + i * 10 + j, n=10, len=110, nkeys=nk, nvals=4,
+                     args=["--readback", "0", "--hashes", "1", "--p-rollback", "8", "--max-readers", "3",
+                           "--presized-pages", "2048"] + extra)
+                for i, (p, extra) in enumerate([("two", []), ("overflow", ["--presized", "0"]), ("three", []),
+                                                ("hibytes", []), ("empty", ["--presized", "0"])])
+                for j, nk in enumerate([10, 30])]
+    l1_gens(v, gens, "C06", stats, scope=c06_scope, sync_rule="1")
+    l1_runs(v, runs, "C06", stats, scope=c06_scope, sync_rule="1")
+    mc2 = dict(states=mc["states"] + mckv["states"], transitions=mc["transitions"] + mckv["transitions"],
+               configs=mc["configs"] + [dict(cfg="MC_KV", states=mckv["states"])])
+    return finish_l1(v, tier, seed, mc2, stats,
+                     "MC: KVStore (OnlyCommitChanges, SnapshotStable: an error result or Drop leaves `committed`; mutators through a "
+                     "read-only transaction yield ReadOnlyTx) and PageStore (no action writes outside a commit; Rollback changes "
+                     "nothing shared). Binding: TLC-generated transactions (bucket deletions at several levels, deletes on "
+                     "three-level trees) that are ABANDONED, then re-run in a new transaction and committed; random histories with "
+                     "frequent rollbacks, failing calls, mutators on read-only transactions, commits on read-only transactions, "
+                     "re-opens. Trace_KV validates every result; Trace_Page requires: no write / header write outside a commit, file "
+                     "hash and length unchanged around every rollback, read-only transaction, failed call and re-open, shared free "
+                     "list unchanged by a rollback, and the transactions after a rollback allocate exactly as the free list without "
+                     "it allows.")
+
+
+def pairwise(params):
+    """greedy pairwise covering array over dict name -> list of values"""
+    import itertools
+    names = list(params)
+    need = set()
+    for a, b in itertools.combinations(names, 2):
+        for x in params[a]:
+            for y in params[b]:
+                need.add((a, x, b, y))
+    rows = []
+    allrows = [dict(zip(names, vals)) for vals in itertools.product(*[params[n] for n in names])]
+    while need:
+        best, gain = None, -1
+        for r in allrows:
+            g = sum(1 for (a, x, b, y) in need if r[a] == x and r[b] == y)
+            if g > gain:
+                best, gain = r, g
+        rows.append(best)
+        need = {(a, x, b, y) for (a, x, b, y) in need if not (best[a] == x and best[b] == y)}
+    return rows
+
+
+C16_RULES = ("write-beyond-end-of-file", "write-outside-allocation", "alloc-rule", "high-water-mark", "header-fields",
+             "allocated-page-not-written", "live-page-overwritten", "alloc-of-live-page", "structure", "structure-at-open",
+             "persisted-freelist", "reachable-vs-owned", "header-choice", "no-valid-header", "unaligned-write")
+
+
+def c16_scope(sig):
+    if sig.get("kind") == "l1":
+        return sig["rule"] in C16_RULES
+    return True
+
+
+def check_C16(tier, seed):
+    import l1
+    v = Verdict("C16", out_of_scope=lambda sig: not c16_scope(sig))
+    mc = mc_kv(tier)
+    sizes = [1024, 1032, 2048, 3000, 4096, 5000, 16384, 65536, 1048576]
+    params = dict(pagesize=sizes, num_pages=[4, 32, 1000], strict=[0, 1], populate=[0, 1])
+    import itertools
+    rows = pairwise(params) if tier == "quick" else \
+        [dict(zip(params, vals)) for vals in itertools.product(*[params[n] for n in params])]
+    # histories: one small exhaustive family + one with nested buckets; L0 has no option variable, so the
+    # results TLC computed are the same for every configuration
+    n, act, fill = spread(3, 3)
+    beh1, s1, t1 = kv.gen_behaviours("o3", gen_cfg(n, act, fill, ends=("commit", "reopen")), workers=6)
+    n, act, fill = spread(2, 2)
+    beh2, s2, t2 = kv.gen_behaviours("o2m", gen_cfg(n, act, fill, pre=("absent", "kv", "nest"), ends=("reopen",),
+                                                    acts=("keep", "put", "delb", "delsubdelb", "mkb")), workers=6)
+    behs = beh1 + beh2
+    if tier == "quick":
+        behs = behs[::7]
+    for b in behs:
+        b["steps"] = [x for x in b["steps"] if x.get("a") != "check"]
+    tot = dict(replays=0, steps=0, configs=[])
+    for r in rows:
+        big = r["pagesize"] >= 65536
+        sub = behs[::6] if big else behs
+        if r["pagesize"] * r["num_pages"] > 300 * 1024 * 1024:
+            sub = sub[:20]
+        args = ["--pagesize", r["pagesize"], "--num-pages", r["num_pages"], "--strict", r["strict"], "--populate", r["populate"]]
+        nrep, nst = kv.replay_behaviours(v, sub, ["overflow" if r["pagesize"] <= 4096 else "flat"],
+                                         "C16-%d-%d" % (r["pagesize"], r["num_pages"]), extra_args=args, jobs=8)
+        tot["replays"] += nrep
+        tot["steps"] += nst
+        tot["configs"].append(dict(r, histories=len(sub)))
+    # page sizes that are not a multiple of the word size: work, or be refused cleanly (never abort)
+    odd = [1028, 1100, 3001, 4100] if tier == "quick" else [1025, 1026, 1028, 1030, 1100, 2050, 3001, 4097, 4100, 5001, 9999]
+    odd_out = {}
+    for ps in odd:
+        one = [dict(behs[0], steps=behs[0]["steps"])] + behs[1:12]
+        before = len(v.violations)
+        d = scratch()
+        fn = os.path.join(d, "odd-%d.ndjson" % ps)
+        with open(fn, "w") as f:
+            for i, b in enumerate(one):
+                f.write(json.dumps(dict(b, id=i)) + "\n")
+        p = run_jvh(["replay", "--in", fn, "--profile", "two", "--out", fn + ".out", "--pagesize", ps, "--num-pages", 32])
+        res = read_lines(fn + ".out") if os.path.exists(fn + ".out") else []
+        devs = [json.loads(x) for x in res if '"dev"' in x]
+        refused = [x for x in devs if x["dev"].get("what") == "open" and x["dev"]["got"] in (["panic"], ["err", "InvalidDB"])]
+        if p.returncode != 0:
+            odd_out[ps] = "process died (rc %d)" % p.returncode
+            v.report({"kind": "abort", "rc": p.returncode, "pagesize_mod8": ps % 8, "at": "odd-pagesize"},
+                     {"pagesize": ps, "stderr": p.stderr[-800:], "how": "jvh replay --pagesize %d" % ps})
+        elif devs and len(refused) == len(devs) == len(one):
+            odd_out[ps] = "refused cleanly"
+        elif devs:
+            odd_out[ps] = "deviations"
+            for x in devs[:3]:
+                v.report({"kind": "kv", "what": "odd-pagesize", "pagesize_mod8": ps % 8},
+                         {"pagesize": ps, "dev": x["dev"], "history": one[x["line"]]["steps"][:x["dev"]["step"] + 1]})
+        else:
+            odd_out[ps] = "works"
+        for x in (fn, fn + ".out"):
+            if os.path.exists(x):
+                os.remove(x)
+    # growth through several extension steps, the high-water mark creeping over every file end
+    growth = []
+    gstats = dict(events=0, states=0)
+    for ps, strict in ([(3000, 0), (4096, 1), (5000, 0)] if tier == "quick" else
+                       [(3000, 0), (3000, 1), (4096, 0), (4096, 1), (5000, 0), (1032, 1), (16384, 0), (1024, 0)]):
+        build_harness()
+        tf = os.path.join(scratch(), "C16-creep-%d.ndjson" % ps)
+        p = run_jvh(["workload", "--kind", "creep", "--pagesize", ps, "--crossings", 3 if tier == "quick" else 5,
+                     "--strict", strict, "--out", tf], timeout=1800)
+        run = dict(kind="creep", pagesize=ps, strict=strict, profile="raw")
+        info = {}
+        try:
+            info = json.loads(p.stdout.strip().splitlines()[-1])
+        except Exception:
+            pass
+        if p.returncode != 0:
+            v.report({"kind": "hang" if p.returncode == 86 else "abort", "rc": p.returncode, "at": "growth", "pagesize": ps},
+                     {"run": run, "stderr": p.stderr[-1200:], "how": "jvh workload --kind creep --pagesize %d" % ps})
+        for pr in info.get("problems", []):
+            v.report({"kind": "growth", "class": "panic" if "panicked" in pr else "check" if "DB::check" in pr else "readback",
+                      "pagesize_divides_8MiB": (8 * 1024 * 1024) % ps == 0},
+                     {"run": run, "problem": pr, "how": "jvh workload --kind creep --pagesize %d --strict %d" % (ps, strict)})
+        if os.path.exists(tf) and os.path.getsize(tf) > 0:
+            lines = read_lines(tf)
+            try:
+                json.loads(lines[-1])
+            except Exception:
+                open(tf, "w").write("\n".join(lines[:-1]) + "\n")
+            st = l1.page_trace(v, tf, run, also_kv=False, scope=c16_scope, sync_rule="1")
+            gstats["events"] += st["events"]
+            gstats["states"] += st["states"]
+            os.remove(tf)
+        growth.append(dict(pagesize=ps, strict=strict, commits=info.get("txs"), extensions=info.get("crossed"),
+                           file_bytes=info.get("file_bytes")))
+    cov = dict(states=mc["states"] + s1 + s2 + gstats["states"], transitions=mc["transitions"] + t1 + t2 + gstats["events"],
+               traces_validated_against_impl=tot["replays"] + len(growth), evaluations=tot["steps"] + gstats["events"],
+               distinct_nontrivial=len(rows),
+               rule="L0 has no option variable: one behaviour per history. The same TLC-generated histories (with the results TLC "
+                    "computed) are replayed under " + ("a pairwise covering array" if tier == "quick" else "the full product") +
+                    " of page size x initial pages x strict mode x map-populate (distinct_nontrivial = configurations); every "
+                    "result must equal the specification's, strict mode must never reject a commit. Page sizes that are not a "
+                    "multiple of 8 must work or be refused at open without killing the process. Growth: files created with 4 pages "
+                    "are driven across several 8 MiB extensions with transactions sized so that the high-water mark creeps over "
+                    "each file end (also exactly one page beyond); Trace_Page requires every write to lie inside the file as it was "
+                    "before the write; values are read back through the same handle.",
+               samples=[tot["configs"][:3], growth], odd_pagesizes=odd_out, growth=growth, configs=tot["configs"], model=dict(MC_KV=mc["states"]),
+               exhaustive=(tier != "quick"))
+    return v.finish(tier, seed, "model_checking", cov, KV_ASSUME + L1_ASSUME[3:])
+
+
 def replay(prop, path):
     """Re-executes the history stored in a replay file and prints what the last step yields."""
     r = json.load(open(path))
